@@ -1,5 +1,232 @@
 import Blue.Proofs.Wire
-import Blue.Proofs.EntryCodec
 import Blue.Proofs.Proto
-/-! Property C15: the theorems the check builds and audits (spike inventory; the build phase
-    completes the list from DESIGN Appendix C.0). -/
+import Blue.Proofs.ProtoMsg
+import Blue.Proofs.EntryCodec
+import Blue.Proofs.ConstsTieProto
+/-! # Property C15 — the protobuf codec round-trips all values and decodes arbitrary bytes safely
+
+Property theorems only (helper lemmas live in `Blue/Proofs/{Wire,Proto,ProtoMsg}.lean`).
+
+Models: `Blue/Model/Wire.lean` (buffertk `v64` with the ten-byte limit and the dropped high bits of
+a ten-byte varint, prototk `Tag` / `FieldNumber` / `WireType`, `FieldIterator::next` with the slice
+cut at the canonical varint size), `Blue/Model/Proto.lean` (flat schema interpreter, the design-phase
+theorem) and `Blue/Model/ProtoMsg.lean` (the full schema language: every `field_types::*`, plain /
+`Option` / `Vec` fields, nested structs, enums with unit / tuple / named variants, `Result`, with
+the error class of every failing decode).  The correspondence check runs the real
+`#[derive(Message)]` code of a family of 17 types against `ProtoMsg` byte for byte, and the flat
+interpreter side by side on the flat members of the family.
+
+Decoder *totality* is by construction: `unpackMsg` is a total function into `value ⊕ error class`
+(`decode_total`); that the code never panics where the model returns an error is the hostile-stream
+correspondence, not a theorem. -/
+namespace Blue.Props.C15
+open Blue.Wire Blue.ProtoMsg
+
+/-! ## constants of the wire format, regenerated from the Rust source on every run -/
+
+/-- wire-type numbers 0, 1, 2, 5 and nothing else -/
+theorem wire_types_from_source :
+    [WT.varint, WT.sixtyFour, WT.lengthDelimited, WT.thirtyTwo].map WT.bits = Blue.Generated.protoWireTypeBits
+    ∧ Blue.Generated.protoWireTypeBitsNew = Blue.Generated.protoWireTypeBits
+    ∧ (List.range 8).map (fun b => (WT.ofBits b).map WT.bits)
+        = (List.range 8).map (fun b => if b ∈ Blue.Generated.protoWireTypeBitsNew then some b else none) :=
+  Blue.ConstsTie.proto_wire_types
+
+/-- field numbers 1 … 2^29-1 without 19000 … 19999, in the library and in the derive macro -/
+theorem field_number_limits_from_source (f : Nat) :
+    validFieldNumber f = (decide (Blue.Generated.protoFirstFieldNumber ≤ f) && decide (f ≤ Blue.Generated.protoLastFieldNumber)
+      && !(decide (Blue.Generated.protoFirstReservedFieldNumber ≤ f) && decide (f ≤ Blue.Generated.protoLastReservedFieldNumber)))
+    ∧ Blue.Generated.protoLastFieldNumber = 2 ^ 29 - 1
+    ∧ Blue.Generated.protoDeriveLastFieldNumber = Blue.Generated.protoLastFieldNumber
+    ∧ Blue.Generated.protoDeriveFirstReservedFieldNumber = Blue.Generated.protoFirstReservedFieldNumber
+    ∧ Blue.Generated.protoDeriveLastReservedFieldNumber = Blue.Generated.protoLastReservedFieldNumber :=
+  ⟨Blue.ConstsTie.proto_valid_field_number f, Blue.ConstsTie.proto_field_number_limits.2.2.1,
+   Blue.ConstsTie.proto_field_number_limits.2.2.2.2.2.2.1, Blue.ConstsTie.proto_field_number_limits.2.2.2.2.2.2.2.1,
+   Blue.ConstsTie.proto_field_number_limits.2.2.2.2.2.2.2.2⟩
+
+/-- every field type's declared wire type is the protobuf one (fails on the unrepaired tree, where
+    `float` declares the 64-bit wire type while writing four bytes: D-C15-float) -/
+theorem field_wire_types_from_source :
+    ([Scalar.int32, .int64, .uint32, .uint64, .sint32, .sint64, .bool, .fixed32, .fixed64, .sfixed32, .sfixed64,
+      .float, .double, .bytes, .bytesN 16, .bytesN 32, .bytesN 64, .string].map (·.wt.bits)) ++ [(Ty.msg (.struct [])).wt.bits]
+      = Blue.Generated.protoFieldWireTypes := Blue.ConstsTie.proto_field_wire_types
+
+/-- the three behaviours the model takes from the *repaired* source: `message<M>::unpack` does not
+    assert (D-21), a named variant skips unknown fields (D-C15-named), varints stop at ten bytes,
+    `Result` uses tags 10 / 18 -/
+theorem decoder_switches_from_source :
+    Blue.Generated.protoMessageUnpackAsserts = 0
+    ∧ namedVariantStrict = decide (Blue.Generated.protoNamedVariantRejectsUnknown = 1)
+    ∧ (∀ bs, decVarint bs = decVarintAux Blue.Generated.varintMaxBytes 0 0 bs)
+    ∧ Blue.Generated.resultTags = [10, 18] :=
+  ⟨Blue.ConstsTie.proto_message_unpack_does_not_assert, Blue.ConstsTie.proto_named_variant_strict,
+   Blue.ConstsTie.varint_max_bytes, Blue.ConstsTie.result_tags⟩
+
+/-! ## varints, zig-zag, fixed width, tags -/
+
+/-- every `u64` round-trips through `v64`, whatever follows it; `pack_sz` is the number of bytes
+    written, at most ten -/
+theorem varint_roundtrip (x : Nat) (hx : x < U64) (rest : List Nat) :
+    decVarint (encVarint x ++ rest) = some (x, rest)
+    ∧ varintSz x = (encVarint x).length ∧ (encVarint x).length ≤ 10 ∧ (∀ b ∈ encVarint x, b < 256) :=
+  ⟨decVarint_enc x hx rest, varintSz_eq x hx, encVarint_length_le_ten x hx, encVarint_bytes x⟩
+
+/-- what `v64::unpack` does beyond inverting `pack`: non-minimal encodings are accepted, an
+    eleventh byte is not, and bits 1-6 of a tenth byte are dropped -/
+theorem varint_decoder_quirks :
+    decVarint [0x80, 0x00] = some (0, [])
+    ∧ decVarint [0x80, 0x80, 0x80, 0x80, 0x80, 0x80, 0x80, 0x80, 0x80, 0x80, 0x01] = none
+    ∧ decVarint [0xff, 0xff, 0xff, 0xff, 0xff, 0xff, 0xff, 0xff, 0xff, 0x7f] = some (18446744073709551615, [])
+    ∧ decVarint [0x80, 0x80, 0x80, 0x80, 0x80, 0x80, 0x80, 0x80, 0x80, 0x02] = some (0, []) := by decide
+
+/-- zig-zag is a bijection between `i64` and `u64` -/
+theorem zigzag_roundtrip :
+    (∀ i : Int, unzigzag (zigzag i) = i) ∧ (∀ n : Nat, zigzag (unzigzag n) = n)
+    ∧ (∀ i : Int, -(P63 : Int) ≤ i → i < (P63 : Int) → zigzag i < U64) :=
+  ⟨unzigzag_zigzag, zigzag_unzigzag, zigzag_lt⟩
+
+/-- little-endian fixed-width integers round-trip -/
+theorem fixed_roundtrip (k v : Nat) (rest : List Nat) (hv : v < 256 ^ k) :
+    decFixed k (Blue.Proto.leBytes k v ++ rest) = .ok (v, rest) ∧ (Blue.Proto.leBytes k v).length = k :=
+  ⟨decFixed_le k v rest hv, Blue.Proto.leBytes_length k v⟩
+
+/-- every field type's unpacker inverts its packer on every value of its Rust type (signed and
+    unsigned 32 / 64-bit varints, zig-zag, bool, fixed, float bit patterns, bytes, fixed-size bytes,
+    UTF-8 strings), whatever follows -/
+theorem scalar_roundtrip (s : Scalar) (v : Val) (h : WfScalar s v) (rest : List Nat) :
+    decScalar s (encScalar s v ++ rest) = .ok (v, rest) := decScalar_enc s v h rest
+
+/-- tags round-trip -/
+theorem tag_roundtrip (t : Tag) (ht : validFieldNumber t.num = true) (rest : List Nat) :
+    decTagE (encTag t ++ rest) = .ok (t, rest) ∧ encTag t = encVarint (t.num * 8 + t.wt.bits) :=
+  ⟨decTagE_enc t ht rest, rfl⟩
+
+/-- the three rejection classes of `Tag::unpack` -/
+theorem tag_rejections (num w : Nat) (rest : List Nat) :
+    (w < 8 → num * 8 + w ≤ U32MAX → validFieldNumber num = false →
+      decTagE (encVarint (num * 8 + w) ++ rest) = .error .invalidFieldNumber)
+    ∧ (validFieldNumber num = true → (w = 3 ∨ w = 4 ∨ w = 6 ∨ w = 7) →
+      decTagE (encVarint (num * 8 + w) ++ rest) = .error .unhandledWireType)
+    ∧ (∀ t, U32MAX < t → t < U64 → decTagE (encVarint t ++ rest) = .error .tagTooLarge) :=
+  ⟨fun hw hle hbad => decTagE_invalid_number num w hw hle hbad rest,
+   fun hv hw => decTagE_bad_wire_type num w hv hw rest,
+   fun t h1 h2 => decTagE_too_large t h1 h2 rest⟩
+
+/-- which field numbers are rejected -/
+theorem field_number_rejections :
+    validFieldNumber 0 = false ∧ validFieldNumber 536870912 = false ∧ validFieldNumber 19000 = false
+    ∧ validFieldNumber 19999 = false ∧ validFieldNumber 1 = true ∧ validFieldNumber 536870911 = true
+    ∧ validFieldNumber 18999 = true ∧ validFieldNumber 20000 = true := by decide
+
+/-! ## messages -/
+
+/-- `message_roundtrip`: for every message type of the schema language and every value of it
+    (`WfMsg`: numbers valid and distinct, leaves in range, frames below 2^64 bytes), unpacking the
+    packing returns the value and consumes everything -/
+theorem message_roundtrip (f : Nat) (m : Msg) (v : Val) (h : WfMsg f m v) :
+    unpackMsg f m (packMsg f m v) = .ok (v, []) := unpack_pack f m v h
+
+/-- an enum or a `Result` consumes exactly its own field and hands back what follows -/
+theorem enum_returns_rest (f : Nat) (m : Msg) (v : Val) (h : WfMsg f m v) (rest : List Nat)
+    (hm : ∀ fs, m ≠ .struct fs) : unpackMsg f m (packMsg f m v ++ rest) = .ok (v, rest) :=
+  unpack_pack_rest f m v h rest hm
+
+/-- the design-phase theorem for flat schemas (varint / bytes / fixed32 / fixed64 fields), kept:
+    the driver runs this interpreter next to the full one on the flat types of the family -/
+theorem flat_message_roundtrip (S : List Blue.Proto.Field) (vs : List Blue.Proto.Val) (h : Blue.Proto.Wf S vs)
+    (hnd : (S.map (·.num)).Nodup) : Blue.Proto.unpack S (Blue.Proto.pack S vs) = some vs :=
+  Blue.Proto.unpack_pack S vs h hnd
+
+/-- the hand-written instance the block and log proofs use (sst `KeyValueEntry`) -/
+theorem entry_message_instance (e : Blue.EntryCodec.Entry) (h : e.Wf) (rest : List Nat) :
+    Blue.EntryCodec.decEntry (Blue.EntryCodec.encEntry e ++ rest) = some (e, rest) :=
+  Blue.EntryCodec.decEntry_enc e h rest
+
+/-- `unknown_fields_skipped`, one step: a field matching no arm leaves the message being built (or
+    the error already found) unchanged, whatever its payload -/
+theorem unknown_field_step (rec : Msg → List Nat → R (Val × List Nat)) (fs : List Field)
+    (acc : R (List Val)) (fld : Tag × List Nat) (h : Unknown fs fld.1) :
+    mergeStep rec false fs acc fld = acc := mergeStep_unknown rec fs acc fld h
+
+/-- `unknown_fields_skipped`: a well-formed field the reader has no arm for (an unknown number, or
+    a known number with another wire type), inserted anywhere between the fields of a struct,
+    does not change what the struct unpacks to — value or error -/
+theorem unknown_fields_skipped (f : Nat) (fs : List Field) (es1 es2 : List (Nat × Ty × Val)) (u : Nat × Ty × Val)
+    (h1 : ∀ e ∈ es1, WfEntry (WfMsg f) (packMsg f) e) (h2 : ∀ e ∈ es2, WfEntry (WfMsg f) (packMsg f) e)
+    (hu : WfEntry (WfMsg f) (packMsg f) u) (hunk : Unknown fs ⟨u.1, u.2.1.wt⟩) :
+    unpackMsg (f + 1) (.struct fs) ((es1 ++ u :: es2).flatMap (packEntry (packMsg f)))
+      = unpackMsg (f + 1) (.struct fs) ((es1 ++ es2).flatMap (packEntry (packMsg f))) :=
+  unpackMsg_unknown f fs es1 es2 u h1 h2 hu hunk
+
+/-- the flat version of the design phase -/
+theorem flat_unknown_field_step (schema : List Blue.Proto.Field) (acc : List Blue.Proto.Val) (fld : Tag × List Nat)
+    (h : ∀ f ∈ schema, ¬ (f.num = fld.1.num ∧ f.ty.wt = fld.1.wt)) :
+    Blue.Proto.mergeInto schema acc fld = some acc := Blue.Proto.mergeInto_unknown schema acc fld h
+
+/-- `noncanonical_field_rejected`: a non-minimally encoded varint value in a struct field reaches
+    the field's unpacker truncated and is rejected (an error, never a misparse) -/
+theorem noncanonical_field_rejected (buf : List Nat) (x : Nat) (rest : List Nat)
+    (h : decVarint buf = some (x, rest)) (hn : (encVarint x).length + rest.length < buf.length)
+    (s : Scalar) (hs : s.wt = .varint) :
+    decScalar s (buf.take (encVarint x).length) = .error .varintOverflow :=
+  Blue.ProtoMsg.noncanonical_field_rejected buf x rest h hn s hs
+
+/-- `decode_total`: every byte string decodes to a value or to an error class -/
+theorem decode_total (f : Nat) (m : Msg) (bs : List Nat) :
+    (∃ v rest, unpackMsg f m bs = .ok (v, rest)) ∨ (∃ e, unpackMsg f m bs = .error e) := unpack_total f m bs
+
+/-- D-21 as the repaired code behaves: a nested enum followed by another byte inside its
+    length-delimited frame is an error (`wrong-length`); the unrepaired code asserts.  Input:
+    tag(10, length-delimited), length 3, [unit variant 1: `0a 00`], trailing `00`. -/
+theorem nested_enum_trailing_bytes_is_an_error :
+    unpackMsg 3 (.enum [.tuple 10 (.msg (.enum [.unit 1] (.variant 0 (.struct []))))] (.variant 0 (.struct [])))
+      [0x52, 0x03, 0x0a, 0x00, 0x00] = .error .wrongLength := by rfl
+
+/-! non-vacuity: concrete non-trivial values meet the hypotheses -/
+example : (300 : Nat) < U64 := by decide
+example : WfScalar .sint32 (.int (-2147483648)) := by simp [WfScalar, P31]
+example : WfScalar .string (.bytes [0xf0, 0x9f, 0x98, 0x80]) := by
+  refine ⟨by decide, by decide⟩
+example : validFieldNumber (⟨536870911, .lengthDelimited⟩ : Tag).num = true := by decide
+/-- a struct with a plain, an optional, a repeated and a nested-enum field -/
+example : WfMsg 3
+    (.struct [.mk 1 .one (.scalar .uint64), .mk 2 .opt (.scalar .sint32), .mk 3 .rep (.scalar .bool),
+              .mk 4 .one (.msg (.enum [.unit 1, .tuple 2 (.scalar .uint64)] (.variant 0 (.struct []))))])
+    (.struct [.int 300, .some (.int (-1)), .list [.int 1, .int 0], .variant 1 (.int 7)]) := by
+  simp only [WfMsg, WfFieldsWith, WfSlotWith, WfTyWith, WfScalar, WfVariantWith, Field.num, Field.card, Field.ty]
+  refine ⟨⟨by decide, by decide, by decide, by decide, by decide, ?_, by decide, ?_, trivial⟩, by decide⟩
+  · intro x hx; simp at hx; rcases hx with rfl | rfl <;> simp
+  · refine ⟨⟨.tuple 2 (.scalar .uint64), rfl, by decide, ?_, by decide⟩, ?_⟩
+    · intro j w hj hw
+      have : j = 0 := by omega
+      subst this; simp at hw; subst hw; decide
+    · simp [packMsg, packOne, encTyWith, encScalar, encTag, WT.bits, Ty.wt, Scalar.wt, encVarint_lt, U64]
+example : Unknown [.mk 1 .one (.scalar .uint64)] ⟨1, .lengthDelimited⟩ := by
+  intro f hf; simp at hf; subst hf; simp [Field.num, Field.ty, Ty.wt, Scalar.wt]
+example : decVarint [0x80, 0x00, 0x07] = some (0, [0x07]) ∧ (encVarint 0).length + [0x07].length < [0x80, 0x00, 0x07].length := by
+  refine ⟨by decide, ?_⟩; rw [encVarint_lt (by omega)]; decide
+
+end Blue.Props.C15
+
+#print axioms Blue.Props.C15.wire_types_from_source
+#print axioms Blue.Props.C15.field_number_limits_from_source
+#print axioms Blue.Props.C15.field_wire_types_from_source
+#print axioms Blue.Props.C15.decoder_switches_from_source
+#print axioms Blue.Props.C15.varint_roundtrip
+#print axioms Blue.Props.C15.varint_decoder_quirks
+#print axioms Blue.Props.C15.zigzag_roundtrip
+#print axioms Blue.Props.C15.fixed_roundtrip
+#print axioms Blue.Props.C15.scalar_roundtrip
+#print axioms Blue.Props.C15.tag_roundtrip
+#print axioms Blue.Props.C15.tag_rejections
+#print axioms Blue.Props.C15.field_number_rejections
+#print axioms Blue.Props.C15.message_roundtrip
+#print axioms Blue.Props.C15.enum_returns_rest
+#print axioms Blue.Props.C15.flat_message_roundtrip
+#print axioms Blue.Props.C15.entry_message_instance
+#print axioms Blue.Props.C15.unknown_field_step
+#print axioms Blue.Props.C15.unknown_fields_skipped
+#print axioms Blue.Props.C15.flat_unknown_field_step
+#print axioms Blue.Props.C15.noncanonical_field_rejected
+#print axioms Blue.Props.C15.decode_total
+#print axioms Blue.Props.C15.nested_enum_trailing_bytes_is_an_error
